@@ -336,7 +336,7 @@ func (g *Gen) SetupBound(rule string) (sc BoundScenario, ok bool) {
 			return a.oneV2(txn)
 		}
 		return sc, true
-	case "v1-revision-window-start", "v1-proof-window", "v1-formation-window-start":
+	case "v1-revision-window-start", "v1-revision-window-unchanged", "v1-proof-window", "v1-formation-window-start":
 		if rule == "v1-formation-window-start" {
 			W := child + ahead
 			sc.From, sc.To = W-1, W+2
@@ -357,7 +357,8 @@ func (g *Gen) SetupBound(rule string) (sc BoundScenario, ok bool) {
 			return sc, false
 		}
 		owner := std(2)
-		if rule == "v1-revision-window-start" {
+		if rule == "v1-revision-window-start" || rule == "v1-revision-window-unchanged" {
+			keep := rule == "v1-revision-window-unchanged"
 			sc.From, sc.To = W-1, W+2
 			sc.Want = func(a *Adv) bool { return a.Child <= W }
 			sc.Build = func(a *Adv) (types.Block, consensus.V1BlockSupplement, bool) {
@@ -368,7 +369,15 @@ func (g *Gen) SetupBound(rule string) (sc BoundScenario, ok bool) {
 				rev := e.FileContract
 				rev.RevisionNumber++
 				// the new window is kept legal at every probed height so that only the *current* window start decides
-				rev.WindowStart, rev.WindowEnd = W+5, W+8
+				// (or, the ordinary shape of a revision, left exactly as it is: only number, root, size and split change)
+				if !keep {
+					rev.WindowStart, rev.WindowEnd = W+5, W+8
+				} else if n := len(rev.ValidProofOutputs); n >= 2 && !rev.ValidProofOutputs[0].Value.IsZero() {
+					rev.ValidProofOutputs = append([]types.SiacoinOutput(nil), rev.ValidProofOutputs...)
+					rev.ValidProofOutputs[0].Value = rev.ValidProofOutputs[0].Value.Sub(types.NewCurrency64(1))
+					rev.ValidProofOutputs[1].Value = rev.ValidProofOutputs[1].Value.Add(types.NewCurrency64(1))
+					rev.FileMerkleRoot[0] ^= 1
+				}
 				txn := types.Transaction{FileContractRevisions: []types.FileContractRevision{{ParentID: id, UnlockConditions: *owner.UC, FileContract: rev}}}
 				SignV1(a.CS, &txn, false)
 				return a.oneV1(txn)
@@ -625,7 +634,7 @@ func min64(a, b uint64) uint64 {
 // BoundRules lists the rule names understood by SetupBound.
 var BoundRules = []string{
 	"v1-output-maturity", "v2-output-maturity", "v1-unlock-conditions-timelock", "v2-uc-policy-timelock", "v1-signature-timelock",
-	"v2-above", "v2-after", "v1-revision-window-start", "v1-proof-window", "v1-formation-window-start", "v1-proof-after-window-revised-in-block",
+	"v2-above", "v2-after", "v1-revision-window-start", "v1-revision-window-unchanged", "v1-proof-window", "v1-formation-window-start", "v1-proof-after-window-revised-in-block",
 	"v2-revision-proof-height", "v2-proof-height", "v2-expiration-height", "v2-formation-proof-height",
 	"v1-until-require-height", "v2-from-allow-height", "v2-ephemeral-parent-maturity",
 }
